@@ -8,7 +8,7 @@
 //!         qubit sets; the real results are recorded for spec/trace/FrameMatchTrace.tla.
 //! Shared code (abstraction function) lives in c22.rs.
 
-use super::c22::{abs_frame, abs_instr, real_instr, text_frame};
+use super::c22::{abs_frame, abs_instr, not_reproduced, text_frame, try_real_instr};
 use crate::runner::{Outcome, Summary, Violation};
 use crate::util::{self, arr, s};
 use crate::Ctx;
@@ -99,10 +99,15 @@ pub fn replay(_ctx: &Ctx, case: &Value) -> Outcome {
     };
     let frames = arr(&case, "frames").clone();
     let uq: Vec<u64> = arr(&case, "uq").iter().map(|q| q.as_u64().unwrap()).collect();
-    let i = real_instr(&case["instr"]);
+    let i = match try_real_instr(&case["instr"]) {
+        Ok(i) => i,
+        Err(e) => return not_reproduced(e),
+    };
     let program = program_for(&frames, &uq);
     // the program must have exactly the frames and used qubits the case states
-    assert_eq!(program.frames.len(), frames.len(), "frame set of the case not reproduced");
+    if program.frames.len() != frames.len() {
+        return not_reproduced("frame set of the case not reproduced".into());
+    }
     let mut got_uq: Vec<u64> = program.get_used_qubits().iter().map(|q| match q {
         quil_rs::instruction::Qubit::Fixed(n) => *n,
         _ => panic!("non-fixed qubit"),
@@ -110,7 +115,10 @@ pub fn replay(_ctx: &Ctx, case: &Value) -> Outcome {
     got_uq.sort();
     let mut want_uq = uq.clone();
     want_uq.sort();
-    assert_eq!(got_uq, want_uq, "used qubits of the case not reproduced");
+    want_uq.dedup();
+    if got_uq != want_uq {
+        return not_reproduced("used qubits of the case not reproduced".into());
+    }
     let got = real_matching(&program, &i);
     let matched = got.get("some").map(|x| x["used"].as_array().unwrap().len() + x["blocked"].as_array().unwrap().len()).unwrap_or(0);
     let mut o = Outcome::ok(matched >= 1 && frames.len() >= 2);
